@@ -31,7 +31,11 @@ RULE = ("seeded op sequences on direct and bucketed k-mer tables (alphabets of 2
         "is passed in varying memory layouts and dtypes (strided, Fortran, transposed, column slices, read-only, "
         "int32/uint32/uint64); substitution matrices over alphabets larger than the k-mer base alphabet; contiguous "
         "vs spaced k-mer alphabets (equality both ways, mixed from_tables / match_table); queries over smaller / "
-        "larger / foreign alphabets with in-range codes. non-trivial = at least one non-empty result or an error branch; "
+        "larger / foreign alphabets with in-range codes; select(sequence, alphabet_check) of all selectors; table "
+        "protocol methods (in, iter, reversed, len, properties, str) and alphabet methods (split, decode, encode, "
+        "kmer_array_length); from_sequences with default / explicit-but-different alphabet and default bucket "
+        "number; scalars as NumPy integers of all widths, arrays as lists / tuples / byte-swapped; objects reused "
+        "across calls; refused calls leave arguments untouched. non-trivial = at least one non-empty result or an error branch; "
         "distinct = different op list")
 TRUSTED = ["numpy fancy indexing / argsort / where, pickle: modelled by documented semantics",
            "ScoreThresholdRule.similar_kmers: the iterative while-loop is modelled as the depth-first recursion it performs "
@@ -76,6 +80,8 @@ K_MINCODE_BOOL = "C10/mincode/returns-boolean-mask"
 K_FUSE = "C10/fuse/code-equals-alphabet-length"
 K_EQ_SPACING = "C10/eq/spacing-ignored"
 K_CTOR_CRASH = "C10/ctor/crash-after-partial-count"
+K_NPK = "C10/kmeralphabet/numpy-scalar-k-arithmetic"
+K_KHASH = "C10/kmeralphabet/hash-unspaced"
 
 
 # ---------------------------------------------------------------- small formatting helpers (shared canonical text)
@@ -429,7 +435,7 @@ def _run_ops(ops):
             return a
         return a
 
-    def S(x, limit=None):
+    def S(x, limit=None, signed_only=False):
         """the same integer as Python int or as a NumPy scalar of some width (chosen per op and argument).
         limit: a value that must also fit the chosen type (n**k for k: narrower types overflow in len(), known finding)"""
         if not LAY["on"]:
@@ -438,7 +444,7 @@ def _run_ops(ops):
         h = zlib.crc32(f"{LAY['op']}#S{LAY['i']}".encode())
         types = [None, np.int64, np.int32, np.uint32, np.uint64, np.int16, np.uint16, np.int8, np.uint8, None]
         ty = types[h % len(types)]
-        if ty is None:
+        if ty is None or (signed_only and np.iinfo(ty).min == 0):
             return x
         info = np.iinfo(ty)
         if info.min <= x <= info.max and (limit is None or limit <= info.max):
@@ -523,7 +529,7 @@ def _run_ops(ops):
                 arg = "".join("1" if i in sp else "0" for i in range(sp[-1] + 1))   # string form of the same model
             elif sp is not None:
                 arg = spacing_array(sp)                                           # int64 ndarray, as given (maybe unsorted)
-            st["ka"] = align.KmerAlphabet(st["base"], S(k, n ** k), arg)
+            st["ka"] = align.KmerAlphabet(st["base"], S(k, n ** k, True), arg)
             line = f"ok {len(st['ka'])}"
             if isinstance(arg, np.ndarray):
                 if arg.tolist() != list(sp):
@@ -563,7 +569,7 @@ def _run_ops(ops):
                 ms = _parse_masks(w[4], len(seqs))
                 ms = None if ms is None else [None if m is None else g.add(boolarr(m)) for m in ms]
                 sp_arr = None if st["sp"] is None else spacing_array(st["sp"])
-                t = cls.from_sequences(S(st["k"], st["n"] ** st["k"]), seqs, rid, ms, alphabet=st["base"], spacing=sp_arr, **kw)
+                t = cls.from_sequences(S(st["k"], st["n"] ** st["k"], True), seqs, rid, ms, alphabet=st["base"], spacing=sp_arr, **kw)
             elif c == "kms":
                 kms = [g.add(i64(x, rejectable=(j == 0))) for j, x in enumerate(_parse_lists(w[3]))]
                 rid = None if w[2] == "-" else g.add(i64(_parse_nats(w[2])))
@@ -598,7 +604,7 @@ def _run_ops(ops):
             ms = None if ms is None else [None if m is None else boolarr(m) for m in ms]
             sp_arr = None if st["sp"] is None else spacing_array(st["sp"])
             explicit = st["base"] if w[6] == "e" else None
-            t = cls.from_sequences(S(st["k"], st["n"] ** st["k"]), seqs, rid, ms, alphabet=explicit, spacing=sp_arr, **kw)
+            t = cls.from_sequences(S(st["k"], st["n"] ** st["k"], True), seqs, rid, ms, alphabet=explicit, spacing=sp_arr, **kw)
             line = add(t, w[1] != "d")
             if auto:
                 # default bucket number: a prime, at least n_kmers / 0.8 (the documented load factor)
@@ -689,7 +695,7 @@ def _run_ops(ops):
             perm = mkperm(w[2], smer_alph)
             if c == "syncq":
                 cls_ = align.CachedSyncmerSelector if w[7] == "1" else align.SyncmerSelector
-                sel = cls_(st["base"], S(st["k"], st["n"] ** st["k"]), S(s), perm, offs)
+                sel = cls_(st["base"], S(st["k"], st["n"] ** st["k"], True), S(s), perm, offs)
                 decoy(lambda x: sel.select(mkqseq(x.tolist(), w[5]), alphabet_check=False), np.array(_parse_nats(w[4]) + [0]))
                 return pairs(*sel.select(mkqseq(_parse_nats(w[4]), w[5]), alphabet_check=(w[6] == "1")))
             sel = align.SyncmerSelector(st["base"], st["k"], S(s), perm, offs)
@@ -754,15 +760,13 @@ def _run_ops(ops):
         try:
             out.append(one(op))
             continue
-        except (TypeError, ValueError, BufferError, AttributeError) as e:
+        except Exception as e:  # noqa: BLE001
             g = LAY.get("guard")
             if g is not None and g.changed():
                 out.append(refused(e))
                 continue
-            # possibly a layout / dtype / spelling / read-only buffer the real code rejects: redo with plain arguments
-        except Exception as e:  # noqa: BLE001
-            out.append(refused(e))
-            continue
+            # possibly a layout / dtype / spelling (tuple index!) / read-only buffer the real code rejects:
+            # redo with plain arguments - a genuine error shows up again
         LAY.update(on=False, i=0, guard=None)
         try:
             out.append(one(op))
@@ -813,6 +817,8 @@ def oracle(case):
         return _oracle_mincode_dtype(case)
     if case.get("kind") == "ctor-reject":
         return _oracle_ctor_reject(case)
+    if case.get("kind") in ("npk", "khash"):
+        return _oracle_alphabet_misc(case)
     if not case.get("ops"):
         return []
     out = _impl(case)
@@ -838,6 +844,10 @@ def oracle(case):
             v.append((f"C10/{culprit.split()[0]}/crash", f"op `{culprit}` crashed the interpreter ({got}); ops before it: "
                       f"{case['ops'][:case['ops'].index(culprit)]}"))
             break
+        if got.endswith(" |bad-default-buckets"):
+            v.append(("C10/from_sequences/default-bucket-number",
+                      f"op `{op}`: the default n_buckets is not a prime >= n_kmers / 0.8 (nor the alphabet size)"))
+            got = got[:-len(" |bad-default-buckets")]
         if got.endswith(" |argument-modified"):
             v.append((f"C10/{c}/argument-modified",
                       f"op `{op}`: an array passed as argument (spacing / k-mers / mask / positions / ref ids / sequence "
@@ -869,6 +879,64 @@ def oracle(case):
                 continue
             n, k, sp = A["n"], A["k"], A["sp"]
             size = n ** k
+            def xperm(tok):
+                if tok.startswith("ft"):
+                    ti = int(tok[2:])
+                    if ti >= len(tables) or tables[ti]["nb"] is not None:
+                        raise KeyError
+                    tsz = tables[ti]["alph"][0] ** tables[ti]["alph"][1]
+                    return "freq:" + _nats(sum(1 for x in tables[ti]["items"] if x[0] == q) for q in range(tsz))
+                return tok
+            if c in ("split", "decode"):
+                q = int(w[1])
+                if q >= size:
+                    if got.startswith("ok"):
+                        bad(op, f"C10/{c}/accepted-invalid", "ERR", got)
+                else:
+                    digs = [(q // n ** (k - 1 - j)) % n for j in range(k)]
+                    exp = "ok " + (_nats(digs) if c == "split" else "".join("ABCDEFGHIJKLMNOPQRSTUVWXYZ"[d] for d in digs))
+                    if got != exp:
+                        bad(op, f"C10/{c}/mismatch", exp, got)
+                continue
+            if c == "encode":
+                codes = _parse_nats(w[1])
+                if len(codes) == k and all(x < n for x in codes):
+                    exp = "ok " + str(sum(x * n ** (k - 1 - j) for j, x in enumerate(codes)))
+                    if got != exp:
+                        bad(op, "C10/encode/mismatch", exp, got)
+                elif got.startswith("ok"):
+                    bad(op, "C10/encode/accepted-invalid", "ERR", got)
+                continue
+            if c == "arrlen":
+                span = (max(sp) + 1) if sp is not None else k
+                exp = f"ok {int(w[1]) - span + 1}"
+                if got != exp:
+                    bad(op, "C10/kmer_array_length/mismatch", exp, got)
+                continue
+            if c in ("minimq", "mincq", "syncq"):
+                qa, chk = (w[4], w[5]) if c != "syncq" else (w[5], w[6])
+                codes = _parse_nats(w[3] if c != "syncq" else w[4])
+                ctor_bad = (c == "minimq" and int(w[1]) < 2) or (c == "mincq" and int(w[1]) < 1)
+                if not ctor_bad and chk == "1" and (qa == "f" or int(qa[1:]) > n):
+                    if got.startswith("ok"):
+                        bad(op, f"C10/{c}/accepted-invalid", "ERR (alphabet check)", got)
+                    continue
+                if c == "syncq":
+                    c, w = "sync", ["sync", w[1], w[2], w[3], w[4]]
+                else:
+                    try:
+                        kms_ = ref_kmers(n, k, sp, codes)
+                    except (ValueError, KeyError):
+                        if got.startswith("ok"):
+                            bad(op, f"C10/{c}/accepted-invalid", "ERR", got)
+                        continue
+                    c = "minim" if c == "minimq" else "minc"
+                    w = [c, w[1], w[2], _nats(kms_)]
+            if c in ("minim", "minc"):
+                try:
+                    w = [w[0], w[1], xperm(w[2]), w[3]]
+                except KeyError:
+                    continue
             if c == "fuse":
                 codes = _parse_nats(w[1])
                 if len(codes) == k and all(x < n for x in codes):
@@ -907,13 +975,21 @@ def oracle(case):
                 continue
             if c == "mask":
                 continue
-            if c in ("seqs", "kms", "sel", "pos", "merge", "pickle"):
+            if c in ("seqs", "seqsx", "kms", "sel", "pos", "merge", "pickle"):
                 exp_items, tainted, err = None, False, False
                 nb = None
                 talph = (n, k, tuple(sorted(sp)) if sp is not None else None)
                 if c in ("seqs", "kms", "sel"):
                     nb = None if w[1] == "d" else int(w[1])
+                n_tab = n
+                if c == "seqsx":
+                    nb = None if w[1] == "d" else ("auto" if w[1] == "a" else int(w[1]))
+                    msz = _parse_nats(w[5])
+                    n_tab = n if w[6] == "e" else (max(msz) if msz else n)
+                    talph = (n_tab, k, talph[2])
+                    c = "seqs"
                 if c == "seqs":
+                    n = n_tab
                     seqs = _parse_lists(w[3])
                     rid = list(range(len(seqs))) if w[2] == "-" else _parse_nats(w[2])
                     ms = _parse_masks(w[4], len(seqs)) or [None] * len(seqs)
@@ -989,12 +1065,16 @@ def oracle(case):
                 if got != f"ok {len(exp_items)}":
                     bad(op, f"C10/{c}/entry-count", f"ok {len(exp_items)}", got, tainted)
                 continue
-            if c in ("dump", "match", "matchq", "matchsim", "matchsel", "count", "getkmers", "get", "matchtab", "matchtabsim", "eq"):
+            if c in ("dump", "match", "matchq", "matchsim", "matchsel", "count", "getkmers", "get", "matchtab", "matchtabsim", "eq",
+                     "has", "iter", "rev", "props", "str"):
                 i = int(w[1])
                 if i >= len(tables):
                     continue
                 T = tables[i]
                 items, tainted = T["items"], T["tainted"]
+                n, k = T["alph"][0], T["alph"][1]
+                sp = None if T["alph"][2] is None else list(T["alph"][2])
+                size = n ** k
                 if c == "dump":
                     exp = "ok " + _tuples(items)
                 elif c in ("match", "matchq"):
@@ -1055,6 +1135,24 @@ def oracle(case):
                         exp = "ERR" if any(q >= size for q in ks) else "ok " + _nats(sum(1 for x in items if x[0] == q) for q in ks)
                 elif c == "getkmers":
                     exp = "ok " + _nats(sorted({x[0] for x in items}))
+                elif c in ("iter", "rev"):
+                    ks_ = sorted({x[0] for x in items})
+                    exp = "ERR" if T["nb"] is not None else "ok " + _nats(ks_ if c == "iter" else ks_[::-1])
+                elif c == "has":
+                    q = int(w[2])
+                    exp = "ERR" if (T["nb"] is not None or q >= size) else "ok " + ("true" if any(x[0] == q for x in items) else "false")
+                elif c == "props":
+                    if T["nb"] == "auto":
+                        continue
+                    nbs = "-" if T["nb"] is None else str(min(T["nb"], size))
+                    exp = f"ok len={size} k={k} n={n} nb={nbs} sp={'-' if sp is None else _nats(sp)}"
+                elif c == "str":
+                    lines = []
+                    for q in sorted({x[0] for x in items}):
+                        digs = [(q // n ** (k - 1 - j)) % n for j in range(k)]
+                        lines.append("".join("ABCDEFGHIJKLMNOPQRSTUVWXYZ"[d] for d in digs) + ":" +
+                                     ",".join(f"({r},{p})" for (x, r, p) in items if x == q))
+                    exp = "ok " + ("|".join(lines) if lines else "_")
                 elif c == "get":
                     q = int(w[2])
                     exp = "ERR" if q >= size else "ok " + _tuples((r, p) for (x, r, p) in items if x == q)
@@ -1080,6 +1178,8 @@ def oracle(case):
                         continue
                     O = tables[j]
                     tainted = tainted or O["tainted"]
+                    if T["nb"] == "auto" or O["nb"] == "auto":
+                        continue
 
                     def layout(tb):
                         sz = tb["alph"][0] ** tb["alph"][1]
@@ -1194,6 +1294,45 @@ def _oracle_mincode_dtype(case):
         return [(K_MINCODE_BOOL, f"MincodeSelector.select_from_kmers({case['kmers']}) returned a boolean mask, documented: index array")]
     if r[0] != "ok":
         return [("C10/mincode/crash", str(r))]
+    return []
+
+
+def _oracle_alphabet_misc(case):
+    """npk: k given as an 8-bit NumPy integer is the same k (len(alphabet) = n**k, same k-mers, tables work);
+    khash: equal k-mer alphabets hash equally, i.e. hashing works at all."""
+    from common import sandbox
+    _preload()
+
+    def f():
+        import numpy as np
+
+        import biotite.sequence as bseq
+        import biotite.sequence.align as align
+        import warnings
+        warnings.simplefilter("ignore")
+        base = bseq.LetterAlphabet("ABCDEFGH"[:case["n"]])
+        if case["kind"] == "khash":
+            a, b = align.KmerAlphabet(base, case["k"]), align.KmerAlphabet(base, case["k"])
+            return hash(a) == hash(b)
+        kk = getattr(np, case["type"])(case["k"])
+        ka = align.KmerAlphabet(base, kk)
+        short = int(ka.kmer_array_length(case["k"] - 2))
+        if len(ka) != case["n"] ** case["k"]:
+            return len(ka), short, -1, -1
+        s = bseq.GeneralSequence(base)
+        s.code = np.array(case["seq"], dtype=np.uint8)
+        t = align.KmerTable.from_sequences(kk, [s])
+        return len(ka), short, int(t.count().sum()), len(t.match(s))
+    r = sandbox.run_forked(f)
+    if case["kind"] == "khash":
+        if r != ("ok", True):
+            return [(K_KHASH, f"hash(KmerAlphabet(base, {case['k']})) failed: {r}")]
+        return []
+    n_km = len(case["seq"]) - case["k"] + 1
+    if r[0] != "ok" or r[1][0] != case["n"] ** case["k"] or r[1][1] != -1 or r[1][2] != n_km or r[1][3] < n_km:
+        narrow = case["n"] ** case["k"] > {"int8": 127, "uint8": 255}.get(case["type"], 10**30)
+        key = K_NPK if (narrow or case["type"].startswith("u")) else "C10/kmeralphabet/numpy-k"
+        return [(key, f"{case}: expected len {case['n'] ** case['k']}, kmer_array_length(k-2) = -1, {n_km} entries; got {r}")]
     return []
 
 
@@ -1534,6 +1673,10 @@ def _malformed_case(rng):
         ops.append(f"alph {n} 1 -")
         ops.append(f"alph {n} 3 0,1")
         ops.append(f"alph {n} 2 1,1")
+    built = [i for i, o in enumerate(ops) if o.split()[0] in ("seqs", "kms", "sel", "pos")]
+    if built and not any(o.startswith("alph") for o in ops[1:]):
+        ops.append("dump 0")          # a refused call changes nothing: the (first successfully built) table is unchanged
+        ops.append(f"match 0 {_nats(good)} -")
     return {"kind": "malformed", "ops": ops}
 
 
@@ -1703,6 +1846,94 @@ def _qalph_case(rng):
     return {"kind": "qalph", "ops": ops}
 
 
+def _api_case(rng):
+    """The less-used entry points: `in`, iter, reversed, len, properties, str of tables; split / decode / encode /
+    kmer_array_length of the k-mer alphabet; FrequencyPermutation.from_table; empty inputs; duplicate ref ids."""
+    n = rng.choice([2, 3, 4])
+    k = rng.choice([2, 3])
+    size = n ** k
+    sp = _spacing(rng, k) if rng.random() < 0.25 else None
+    span = (max(sp) + 1) if sp else k
+    nb = _nb(rng)
+    ops = [f"alph {n} {k} {_nats(sp) if sp else '-'}"]
+    r = rng.random()
+    if r < 0.15:
+        ops.append(f"kms {nb} - - -")                                        # no reference at all
+    elif r < 0.3:
+        ops.append(f"seqs {nb} 4,4,4 {_lists([_seq(rng, n, span + rng.randint(0, 3), True) for _ in range(3)])} -")   # same ref id thrice
+    else:
+        ops.append(f"seqs {nb} - {_lists([_seq(rng, n, span + rng.randint(0, 6), rng.random() < 0.5) for _ in range(rng.randint(1, 3))])} -")
+    some = [rng.randrange(size) for _ in range(3)]
+    ops += [f"dump 0", f"props 0", f"str 0", f"getkmers 0"]
+    if nb == "d":            # `in`, iter() and reversed() are defined for the direct table only
+        ops += ["iter 0", "rev 0"] + [f"has 0 {q}" for q in some[:2]] + [f"has 0 {size + rng.randint(0, 3)}"]
+    ops += [f"split {some[0]}", f"decode {some[1]}", f"split {size + rng.randint(0, 2)}",
+            f"encode {_nats((some[2] // n ** (k - 1 - j)) % n for j in range(k))}",
+            f"encode {_nats([rng.randrange(n + 2) for _ in range(k + rng.choice([-1, 0, 0, 1]))])}",
+            f"arrlen {rng.choice([0, 1, span - 1, span, span + 1, span + 7])}"]
+    if nb == "d" and sp is None:
+        ks = [rng.randrange(size) for _ in range(rng.randint(3, 12))]
+        ops.append(f"minim {rng.choice([2, 3])} ft0 {_nats(ks)}")
+        ops.append(f"minc {rng.choice([1, 2, 3])} ft0 {_nats(ks)}")
+    return {"kind": "api", "ops": ops}
+
+
+def _selseq_case(rng):
+    """select(sequence, alphabet_check) of all four selectors: fitting, too large and foreign query alphabets,
+    check on / off, cached and plain syncmers."""
+    n = rng.choice([2, 3, 4])
+    kind = rng.choice(["minimq", "mincq", "syncq", "syncq"])
+    k = rng.choice([3, 4]) if kind == "syncq" else rng.choice([2, 3])
+    if kind == "syncq" and n ** k > 130:
+        n = 2
+    size = n ** k
+    ops = [f"alph {n} {k} -"]
+    for _ in range(rng.randint(1, 3)):
+        qa = rng.choice(["f", f"p{n}", f"p{n}", f"p{n + 2}", f"p{max(1, n - 1)}"])
+        hi = n if qa == "f" else min(n, int(qa[1:]))
+        chk = rng.choice(["1", "1", "0"])
+        codes = [rng.randrange(hi) for _ in range(k + rng.choice([-1, 0, 1, 3, 6, 10]))]
+        if kind == "minimq":
+            ops.append(f"minimq {rng.choice([2, 2, 3, 4, 1])} {_perm(rng, size)} {_nats(codes)} {qa} {chk}")
+        elif kind == "mincq":
+            ops.append(f"mincq {rng.choice([1, 2, 3, 4, 0])} {_perm(rng, size)} {_nats(codes)} {qa} {chk}")
+        else:
+            s_ = rng.randint(2, k - 1)
+            window = k - s_ + 1
+            offs = rng.sample(range(-window, window), rng.randint(1, min(2, window)))
+            ops.append(f"syncq {s_} {_perm(rng, n ** s_)} {','.join(map(str, offs))} {_nats(codes)} {qa} {chk} {rng.choice([0, 1])}")
+    return {"kind": "selseq", "ops": ops}
+
+
+def _seqsx_case(rng):
+    """from_sequences with the alphabet / n_buckets defaults and with an explicit alphabet that differs from (extends)
+    the sequences' own alphabets; mixed sequence alphabets."""
+    n = rng.choice([3, 4, 5])
+    k = rng.choice([2, 3])
+    ops = [f"alph {n} {k} -"]
+    n_refs = rng.choice([1, 2, 3])
+    msz = [rng.randint(2, n) for _ in range(n_refs)]
+    if rng.random() < 0.5:
+        msz = [msz[0]] * n_refs
+    refs = [_seq(rng, m_, k + rng.choice([0, 1, 3, 6]), rng.random() < 0.5) for m_ in msz]
+    mode = rng.choice(["e", "d"])
+    nb = rng.choice(["d", "a", "a", 3, 7])
+    ms = None
+    if rng.random() < 0.3:
+        ms = [None if rng.random() < 0.4 else _mask(rng, len(s_)) for s_ in refs]
+    ops.append(f"seqsx {nb} - {_lists(refs)} {_masks(ms)} {_nats(msz)} {mode}")
+    ops.append("dump 0")
+    if nb != "a":
+        ops.append("props 0")
+    n_tab = n if mode == "e" else max(msz)
+    for _ in range(2):
+        m_q = rng.choice([min(msz), n_tab, n_tab + 1])
+        hi = min(m_q, n_tab)
+        q = [c if c < hi else rng.randrange(hi) for c in refs[0][:k + rng.choice([0, 1, 2])]]
+        ops.append(f"matchq 0 {_nats(q)} - p{m_q}")
+    return {"kind": "seqsx", "ops": ops}
+
+
 def _similarity_case(rng):
     n = rng.choice([2, 3, 4])
     k = rng.choice([2, 3])
@@ -1736,6 +1967,17 @@ def cases(rng, tier):
         yield _eq_case(rng)
     for _ in range(60 if tier == "quick" else 500):
         yield _qalph_case(rng)
+    for _ in range(70 if tier == "quick" else 600):
+        yield _api_case(rng)
+    for _ in range(70 if tier == "quick" else 600):
+        yield _selseq_case(rng)
+    for _ in range(60 if tier == "quick" else 500):
+        yield _seqsx_case(rng)
+    for _ in range(6 if tier == "quick" else 30):
+        n_, k_ = rng.choice([(4, 4), (4, 5), (2, 8), (3, 5), (5, 4)])
+        yield {"kind": "npk", "n": n_, "k": k_, "type": rng.choice(["int8", "uint8", "uint16", "uint32", "uint64", "int16", "int32", "int64"]),
+               "seq": [rng.randrange(n_) for _ in range(k_ + 3)]}
+    yield {"kind": "khash", "n": 4, "k": 3}
     for _ in range(12 if tier == "quick" else 60):
         arrs = [[rng.randrange(64) for _ in range(rng.randint(1, 4))] for _ in range(rng.randint(1, 3))]
         yield {"kind": "ctor-reject", "kmers": arrs, "bad": rng.randrange(len(arrs)), "how": rng.choice(["dtype", "readonly"]),
@@ -1780,7 +2022,7 @@ def corpus():
 
 
 def nontrivial(case, impl_out):
-    if case.get("kind") in ("similarity", "mincode-dtype", "ctor-reject"):
+    if case.get("kind") in ("similarity", "mincode-dtype", "ctor-reject", "npk", "khash"):
         return True
     for line in impl_out or []:
         if line.startswith("ERR") or (line.startswith("ok ") and ":" in line):
